@@ -128,6 +128,18 @@ impl TlsConfig {
     }
 }
 
+/// Verification hook: the certificate verifiers used for outgoing and incoming handshakes.
+#[cfg(iroh_verif)]
+pub(crate) fn verif_verifiers() -> (
+    Arc<dyn rustls::client::danger::ServerCertVerifier>,
+    Arc<dyn rustls::server::danger::ClientCertVerifier>,
+) {
+    (
+        Arc::new(verifier::ServerCertificateVerifier),
+        Arc::new(verifier::ClientCertificateVerifier),
+    )
+}
+
 #[allow(missing_docs)]
 #[n0_error::stack_error(derive, add_meta, from_sources)]
 #[non_exhaustive]
